@@ -119,6 +119,10 @@ def run(chk, prog):
     chk.rule('R3', 'width: a line exceeds the width only if it holds a single word (Engine C with ghost line length)', 4)
     chk.rule('R5', 'no two words are merged: every word is separated from the previous word of its line', 3)
     f = prog.one('celma::format::TextBlock', 'format')
+    # the arithmetic below measures the indentation as the length of the blank string member that is streamed
+    ctors = [g for g in prog.functions if g.classq == 'celma::format::TextBlock' and g.short == 'TextBlock' and g.inits]
+    chk.require(any(i.get('name') == 'mIndentSpaces' for g in ctors for i in g.inits),
+                'width rule: the indentation is no longer kept as the blank string member mIndentSpaces')
     cfg = {'invariants': invariants, 'loop_invariants': loop_invariants, 'loop_havoc': loop_havoc,
            'inline': ('celma::format::TextBlock::', 'celma::common::FirstPass::'), 'peel_loops': True,
            'models': {'std::operator<<': m_stream, 'operator<<': m_stream,
